@@ -344,15 +344,39 @@ def _after_instrument(u, case, tier, canary, wd, res, cmd, fn):
     if canary is True and not u.get("plain"):
         cb += ["--property", "%s.postcondition.%d" % (fn, n_posts + 1)]
     res["checker_cmd"] = " ".join(cmd[:-2]) + " ; " + " ".join(cb)
-    rc, txt, dt = run(cb, wd, case.get("timeout", u.get("timeout_" + tier, u["timeout"])), u.get("mem_gb_" + tier, u["mem_gb"]), out=os.path.join(wd, "cbmc.json"))
+    tmo = case.get("timeout", u.get("timeout_" + tier, u["timeout"]))
+    mem = u.get("mem_gb_" + tier, u["mem_gb"])
+
+    def run_cbmc(with_trace):
+        c2 = cb if with_trace else [x for x in cb if x != "--trace"]
+        rc_, txt_, dt_ = run(c2, wd, tmo, mem, out=os.path.join(wd, "cbmc.json"))
+        if rc_ is None:
+            raise Infra("cbmc " + txt_)
+        try:
+            return json.load(open(os.path.join(wd, "cbmc.json"))), dt_
+        except Exception:
+            tail = open(os.path.join(wd, "cbmc.json"), errors="replace").read()[-800:]
+            raise Infra("cbmc produced no parsable result (rc=%s; out of memory?): %s" % (rc_, tail))
+
+    # First run WITHOUT counterexample traces: with the vacuity canary in the same run every run has one failing
+    # property, and its JSON trace (hundreds of MB for the large units) made the driver itself run out of memory
+    # when several were parsed at once.  Only when an obligation other than the canary fails is the query
+    # repeated with --trace to obtain the counterexample.
+    doc, dt = run_cbmc(False)
     res["solver_s"] = round(dt, 2)
-    if rc is None:
-        raise Infra("cbmc " + txt)
-    try:
-        doc = json.load(open(os.path.join(wd, "cbmc.json")))
-    except Exception as e:
-        tail = open(os.path.join(wd, "cbmc.json"), errors="replace").read()[-800:]
-        raise Infra("cbmc produced no parsable result (rc=%s; out of memory?): %s" % (rc, tail))
+    def _failing_other_than_canary(d):
+        for e in d:
+            if "result" in e:
+                for r in e["result"]:
+                    if r.get("status") != "FAILURE":
+                        continue
+                    if canary and (r.get("description") == "CANARY" or r["property"] == "%s.postcondition.%d" % (fn, n_posts + 1)):
+                        continue
+                    return True
+        return False
+    if _failing_other_than_canary(doc):
+        doc, dt2 = run_cbmc(True)
+        res["solver_s"] = round(dt + dt2, 2)
     results = None
     msgs = []
     for e in doc:
